@@ -381,6 +381,19 @@ func (s *Server) VerifLockMode() string {
 	return l.modes[id]
 }
 
+// VerifCloseFiles closes the append-only file and the hook queue of a server
+// that has been shut down. Serve leaves both open when it returns (a real
+// process exits); a harness that runs tens of thousands of server lifetimes in
+// one process would run out of file descriptors.
+func (s *Server) VerifCloseFiles() {
+	if s.aof != nil {
+		s.aof.Close()
+	}
+	if s.qdb != nil {
+		s.qdb.Close()
+	}
+}
+
 // VerifLuaPool reports the state of the script interpreter pool: interpreters
 // accounted for (created and not pruned), idle interpreters in the pool, and
 // how many of the idle ones are distinct objects.
